@@ -499,7 +499,11 @@ func (r *Resolvable) ResolveDeferBatch(rootData *Object, out io.Writer, outstand
 
 	// Direct children whose anchor survived the render are announced now (lazily)
 	// and scheduled by the caller; the rest are cancelled.
-	liveChildren = r.liveChildDescriptors(r.currentDefer.ID)
+	// A fragment that failed delivers nothing, so the objects it selects never reach
+	// the client: its nested defers have no place to be applied to and are cancelled.
+	if !shouldSkipIncremental {
+		liveChildren = r.liveChildDescriptors(r.currentDefer.ID)
+	}
 
 	// Counter: announce live children, complete self. The frame that drives the
 	// outstanding count to zero writes the terminal hasNext:false. Every defer's
